@@ -9,6 +9,7 @@ func init() {
 	vHarnesses["H_C03_anyxml_lists"] = H_C03_anyxml_lists
 	vHarnesses["H_C03_encode_prefix"] = H_C03_encode_prefix
 	vHarnesses["H_C03_empty_text"] = H_C03_empty_text
+	vHarnesses["H_C03_roottag"] = H_C03_roottag
 }
 
 type vJSpec struct {
@@ -305,15 +306,20 @@ func H_C03_encode_prefix() {
 		XmlGoEmptyElemSyntax()
 		defer XmlDefaultEmptyElemSyntax()
 	}
+	XMLEscapeChars(true)
+	defer XMLEscapeChars(false)
 	p := []string{"_", "a", ""}[vChoose(3)]
 	SetAttrPrefix(p)
 	inner := map[string]interface{}{}
-	n := 1 + vChoose(3)
+	n := 1 + vChoose(vP("keys", 2, 3))
 	for i := 0; i < n; i++ {
 		k := vNondetString(1, 2, "_a")
 		_, dup := inner[k]
 		vAssume(!dup)
-		inner[k] = vNondetString(1, 2, "xy%") // per cent signs: values are data, never format strings
+		inner[k] = vNondetString(1, 1, "x%&") // per cent signs and ampersands: values are data, never format strings
+		if i == 0 && vChoose(3) == 0 {
+			inner[k] = []string{"&amp;", "a&lt;b%", "&quot;q&quot;"}[vChoose(3)] // text that looks like an entity is data too
+		}
 	}
 	m := Map{"r": inner}
 	var x []byte
@@ -382,4 +388,34 @@ func H_C03_empty_text() {
 		vAssert(vDeepEq(r["item"], want), "empty text: attributes, children and non-empty text are kept, an empty text adds nothing")
 	}
 	vCover("emptytext")
+}
+
+// the root tag is added around the value even when the value's single key equals it
+func H_C03_roottag() {
+	vResetDecOpts()
+	XMLEscapeChars(true)
+	defer XMLEscapeChars(false)
+	tag := []string{"doc", "r"}[vChoose(2)]
+	var inner interface{} = map[string]interface{}{"a": vNondetString(1, 1, "xy")}
+	if vChoose(2) == 1 {
+		inner = vNondetString(1, 1, "xy")
+	}
+	v := map[string]interface{}{tag: inner}
+	var x []byte
+	var err error
+	switch vChoose(4) {
+	case 0:
+		x, err = AnyXml(v, tag)
+	case 1:
+		x, err = AnyXmlIndent(v, "", " ", tag)
+	case 2:
+		x, err = Map(v).Xml(tag)
+	default:
+		x, err = Map(v).XmlIndent("", " ", tag)
+	}
+	vAssert(err == nil && vSingleRoot(x), "root tag: encodes to one document")
+	m2, derr := NewMapXml(x)
+	vAssert(derr == nil && len(m2) == 1, "root tag: decodes")
+	vAssert(vDeepEq(m2[tag], v), "root tag: the explicit root tag wraps the value, also when the value's single key has the same name")
+	vCover("roottag")
 }
